@@ -678,6 +678,75 @@ func isolationRetryAfterPanic(rep *concReport) {
 	rep.add("isolation-retry-after-panic", ok, "final got %d (want 1007), the provider above the re-provider saw %v (want [7 7])", got, seen)
 }
 
+// concLifecycle: ONE base provider, annotated copies of it (they share the provider id) used in a random order with
+// random inputs.  Every result carries the number of the call that produced it, so "same call" is "same result":
+//
+//	Singleton: one call for the process, whatever the inputs;  Memoize: one call per distinct input, across chains;
+//	Cacheable / MustCache: one call per bound chain;  no annotation: one call per invocation.
+func concLifecycle(rep *concReport, rng *rand.Rand) {
+	var seq int64
+	base := nject.Provide("lifecycle-base", func(a T0) T2 {
+		n := atomic.AddInt64(&seq, 1)
+		return T2{Tag: a.Tag*100000 + uint64(n)}
+	})
+	kinds := []string{"plain", "cacheable", "mustcache", "memoize", "singleton"}
+	variant := map[string]any{
+		"plain": base, "cacheable": nject.Cacheable(base), "mustcache": nject.MustCache(base),
+		"memoize": nject.Memoize(base), "singleton": nject.Singleton(base),
+	}
+	type obs struct {
+		kind  string
+		chain int
+		in    uint64
+		res   uint64
+	}
+	var all []obs
+	var order []string
+	for step := 0; step < 14; step++ {
+		kind := kinds[rng.Intn(len(kinds))]
+		in := uint64(1 + rng.Intn(3))
+		order = append(order, fmt.Sprintf("%s(%d)", kind, in))
+		var inv func() T2
+		if err := nject.Sequence(fmt.Sprintf("LC%d", step), T0{Tag: in}, variant[kind], func(x T2) T2 { return x }).Bind(&inv, nil); err != nil {
+			rep.add("singleton-lifecycle", false, "bind %s: %v", kind, err)
+			return
+		}
+		for k := 0; k < 2; k++ {
+			all = append(all, obs{kind, step, in, inv().Tag})
+		}
+	}
+	bad := ""
+	for i, a := range all {
+		if a.res/100000 != a.in && a.kind != "singleton" && a.kind != "memoize" {
+			bad = fmt.Sprintf("%s chain %d got a result computed for input %d, its input is %d", a.kind, a.chain, a.res/100000, a.in)
+		}
+		if a.kind == "memoize" && a.res/100000 != a.in {
+			bad = fmt.Sprintf("memoize chain %d got a result computed for input %d, its input is %d", a.chain, a.res/100000, a.in)
+		}
+		for _, b := range all[:i] {
+			same := a.res == b.res
+			var want bool
+			switch {
+			case a.kind != b.kind:
+				want = false
+			case a.kind == "singleton":
+				want = true
+			case a.kind == "memoize":
+				want = a.in == b.in
+			case a.kind == "plain":
+				want = false
+			default:
+				want = a.chain == b.chain
+			}
+			if same != want {
+				bad = fmt.Sprintf("%s chain %d (input %d) result %d and %s chain %d (input %d) result %d: same call = %v, want %v",
+					a.kind, a.chain, a.in, a.res, b.kind, b.chain, b.in, b.res, same, want)
+			}
+		}
+	}
+	rep.add("singleton-lifecycle", bad == "", "order=%s %s", strings.Join(order, ","), bad)
+}
+
 func runConc(seed int64, rounds int) []string {
 	rep := &concReport{}
 	rng := rand.New(rand.NewSource(seed))
@@ -690,6 +759,7 @@ func runConc(seed int64, rounds int) []string {
 		g := 4 + rng.Intn(13)
 		concMemo(rep, rng, g, 1+rng.Intn(6), 20+rng.Intn(60))
 		concSingleton(rep, g)
+		concLifecycle(rep, rng)
 		concStaticOnce(rep, g, false)
 		concStaticOnce(rep, g, true)
 		concStaticOnceDebugging(rep, g)
